@@ -2,6 +2,7 @@ import ArgoVerif.Proofs.HTable
 import ArgoVerif.Proofs.Env
 import ArgoVerif.Proofs.AffinitySpec
 import ArgoVerif.Proofs.AffinityBounds
+import ArgoVerif.Proofs.Config
 /-
 Props.C20 — configuration objects are exact maps (hashtable part).
 Property theorems only; helper lemmas live in Proofs/.
@@ -332,5 +333,119 @@ example : Lex (Atoi.cstr ['7']) [.int 7] :=
   Lex.int [] [] [55] [0] [] (by simp) (by simp) (by simp) (by decide) (by intro c r h; cases h; decide)
     (Lex.eos [] [] (by simp))
 end Affinity
+
+namespace Config
+open ArgoVerif.Model ArgoVerif.Model.Config
+open ArgoVerif.Gen.EnvTable (errSuccess errInvArg schedConfigVarEndIdx)
+
+/-- the abstract object: a finite map from integer keys to typed values -/
+abbrev TMap := Int → Option Elem
+
+/-- `ABT_*_config_set` on a typed map: `val = NULL` removes the key (always
+succeeds); a valid type tag stores (type, value) under the key, replacing whatever
+was there; any other tag is `ABT_ERR_INV_ARG` and changes nothing -/
+def tset (k : Config.Kind) (m : TMap) (idx tag : Int) (val : Option Nat) : TMap × Int :=
+  match val with
+  | none => (fun x => if x = idx then none else m x, errSuccess)
+  | some bits =>
+    match tyOfTag k tag with
+    | none => (m, errInvArg)
+    | some ty => (fun x => if x = idx then some ⟨ty, bits⟩ else m x, errSuccess)
+
+/-- one operation on a typed map: new map and what the caller observes -/
+def tstep (k : Config.Kind) (m : TMap) : Config.Op → TMap × Config.Out
+  | .set idx tag val => ((tset k m idx tag val).1, .err (tset k m idx tag val).2)
+  | .get idx => (m, .got (m idx))
+  | .read ptrs => (m, .readR (ptrs.zipIdx.map fun (nonNull, i) => if nonNull then m (i : Int) else none))
+
+def trun (k : Config.Kind) (m : TMap) : List Config.Op → List Config.Out
+  | [] => []
+  | op :: ops => (tstep k m op).2 :: trun k (tstep k m op).1 ops
+
+/-- **C20 (config objects are typed maps)**: from any configuration object with a
+well-formed table (in particular a freshly created one, `config_create_empty`,
+`config_sched_create`), EVERY sequence of `ABT_*_config_set` (typed store, delete by
+NULL value, invalid type tags), `ABT_*_config_get` / `ABTI_*_config_read` and
+`ABT_sched_config_read` (any number of pointers, NULL or not) — over any `int`
+keys: negative (the predefined variables), colliding modulo the table size,
+INT_MIN/INT_MAX — observes exactly what the typed finite map `Int → Option (type ×
+value)` yields: a get returns the type and the value bits of the last store to that
+key (stores of a different type replace), `ABT_ERR_INV_ARG` iff the key is absent;
+a store with an unknown type tag fails and changes nothing. -/
+theorem config_typed_map (ops : List Config.Op) (c : Config.Config) (hw : HTable.WF c.table) :
+    (Config.runOps c ops).2 = trun c.kind (Config.get c) ops ∧ HTable.WF (Config.runOps c ops).1.table ∧
+      (Config.runOps c ops).1.kind = c.kind := by
+  induction ops generalizing c with
+  | nil => exact ⟨rfl, hw, rfl⟩
+  | cons op ops ih =>
+    cases op with
+    | set idx tag val =>
+      obtain ⟨h1, h2, h3, h4⟩ := Proofs.Config.set_refines c idx tag val hw
+      obtain ⟨i1, i2, i3⟩ := ih (Config.set c idx tag val).1 h1
+      simp only [Config.runOps, Config.step, trun, tstep]
+      refine ⟨?_, i2, by rw [i3, h2]⟩
+      rw [i1, h2, h3]
+      have e : Config.get (Config.set c idx tag val).1 = (tset c.kind (Config.get c) idx tag val).1 := h4
+      rw [e]; rfl
+    | get idx =>
+      obtain ⟨i1, i2, i3⟩ := ih c hw
+      simp only [Config.runOps, Config.step, trun, tstep]
+      exact ⟨by rw [i1], i2, i3⟩
+    | read ptrs =>
+      obtain ⟨i1, i2, i3⟩ := ih c hw
+      simp only [Config.runOps, Config.step, trun, tstep]
+      exact ⟨by rw [i1]; rfl, i2, i3⟩
+
+/-- a fresh `ABT_pool_config_create` / `ABT_sched_config_create(&c, ABT_sched_config_var_end)`
+object is the empty map (with the table sizes of the tree) -/
+theorem config_create_empty (k : Config.Kind) :
+    HTable.WF (createEmpty k).table ∧ ∀ x, Config.get (createEmpty k) x = none :=
+  Proofs.Config.createEmpty_spec k
+
+/-- the varargs list of `ABT_sched_config_create` as typed-map stores: pairs are
+stored in order until the first variable whose index is that of
+`ABT_sched_config_var_end`; a variable with an invalid type makes the call fail -/
+def tcreate (m : TMap) : List (Int × Int × Nat) → Option TMap
+  | [] => some m
+  | (idx, tag, bits) :: rest =>
+    if idx = schedConfigVarEndIdx then some m
+    else match tyOfTag .sched tag with
+      | none => none
+      | some ty => tcreate (fun x => if x = idx then some ⟨ty, bits⟩ else m x) rest
+
+/-- `ABT_sched_config_create` with any list of (variable, value) pairs builds exactly
+the typed map of the pairs before the end marker (later pairs win), or fails iff one
+of them has an invalid type -/
+theorem config_sched_create (args : List (Int × Int × Nat)) :
+    match schedCreate args, tcreate (fun _ => none) args with
+    | some c, some m => HTable.WF c.table ∧ c.kind = .sched ∧ Config.get c = m
+    | none, none => True
+    | _, _ => False := by
+  have h := Proofs.Config.createLoop_refines args (createEmpty .sched) (Proofs.Config.createEmpty_spec .sched).1
+  have e0 : Proofs.Config.absMap (createEmpty .sched) = fun _ => none :=
+    funext (Proofs.Config.createEmpty_spec .sched).2
+  have e1 : ∀ m a, Proofs.Config.specCreate m a = tcreate m a := by
+    intro m a
+    induction a generalizing m with
+    | nil => rfl
+    | cons x r ih =>
+      obtain ⟨i, t, b⟩ := x
+      simp only [Proofs.Config.specCreate, tcreate]
+      by_cases he : i = schedConfigVarEndIdx
+      · simp only [he, if_true]
+      · simp only [he, if_false]
+        cases ht : tyOfTag .sched t with
+        | none => rfl
+        | some ty => exact ih _
+  rw [e0, e1] at h
+  exact h
+
+/- non-vacuity: predefined negative key, collision modulo 8, retyping, delete, invalid tag -/
+example : (Config.runOps (createEmpty .sched)
+    [.set (-4) 0 (some 50), .set 4 1 (some 7), .set 4 2 (some 9), .get 4, .get (-4), .set (-4) 0 none,
+     .get (-4), .set 1 7 (some 3), .read [true, true, false, true, true]]).2 =
+    [.err 0, .err 0, .err 0, .got (some ⟨.ptr, 9⟩), .got (some ⟨.int, 50⟩), .err 0, .got none, .err 53,
+     .readR [none, none, none, none, some ⟨.ptr, 9⟩]] := by decide
+end Config
 
 end ArgoVerif.Props.C20
